@@ -7,6 +7,7 @@ import (
 	"io"
 	"regexp"
 	"runtime"
+	"runtime/debug"
 	"strings"
 	"time"
 
@@ -333,6 +334,13 @@ func init() {
 		var cs crCase
 		if err := json.Unmarshal(raw, &cs); err != nil {
 			return core.WorkerOut{Findings: []core.Finding{{Class: "harness", What: err.Error()}}}
+		}
+		// small inputs: a stack beyond 128 MB is runaway recursion (and dies fast); large, deeply nested inputs get
+		// Go's own limit, so that depth the library copes with under default settings is not reported
+		if len(cs.Text) > 10000 {
+			debug.SetMaxStack(1 << 30)
+		} else {
+			debug.SetMaxStack(128 << 20)
 		}
 		return core.WorkerOut{Findings: crEval(cs)}
 	}
